@@ -177,7 +177,7 @@ class SynthDesc():
                     desc.metadata = dict()
                 desc.metadata['reconstructed'] = True  # Was 'shouldNotSend'.
                 desc.metadata['load_path'] = str(path)
-                desc.sdef.metadata = desc.metadata
+                desc.sdef._metadata = desc.metadata
         return ret
 
     def _read_synthdef(self, stream, keep_def=False):  # TODO
@@ -458,7 +458,7 @@ class SynthDescLib(metaclass=MetaSynthDescLib):
                 if not desc.sdef.metadata.get('reconstructed', False):
                     desc.send(s)
                 elif try_reconstructed:
-                    desc.sdef._load_reconstructed(s)
+                    desc.sdef._load_reconstructed(s, None)
 
     def read(self, path=None, keep_defs=True):
         path = path or plf.Platform.synthdef_dir / f'*.{sdf.SynthDef._SUFFIX}'
